@@ -166,6 +166,21 @@ def cases(tier, rng):
         if case["cons"]["fin"] == "exhaust" or tier != "quick" or n % 5 == 0:
             yield from s1.with_faults(case)
     yield from s1.random_cases(tier, rng, s1.KINDS_ASYNC, 2000 if tier == "quick" else 40000, faults=True)
+    # multi-source tools over MIXED argument lists (synchronous iterables between / before / after async iterators):
+    # bookkeeping that counts or indexes "the async ones" drifts when the arguments are not all of one kind
+    import itertools as _it
+    from tools import build_case
+    grid = s1.tool_grid(tier)
+    layouts = [["list", "list", "aobj"], ["aobj", "list", "agen"], ["list", "aobj", "iter", "agen"], ["agen", "list", "list", "aobj", "aobj"],
+               ["iter", "agen"], ["aobj", "seq"]]
+    for tool in ("chain", "zip", "map", "zip_longest", "merge"):
+        nsrc, plist, fns, style = grid[tool]
+        for params in plist[:2]:
+            for kinds in layouts:
+                keyseqs = [[1, 2][: 1 + i % 2] for i in range(len(kinds))]
+                total = sum(len(k) for k in keyseqs)
+                for cons in s1.cons_cuts_and_throws(tool, total):
+                    yield dict(build_case(tool, params, fns, style, keyseqs, kinds, cons, ["def"] * len(fns)), family="mixed")
 
 
 def _proj(vis, out):
@@ -197,8 +212,9 @@ def judge(case, obs, model):
     if a["out"][0] == "raised" and a["out"][1] == ["lib", "RuntimeError"] and case["cons"]["fin"] == "close":
         issues.append(Issue("oracle", {"out": a["out"]}, "close-failed:" + case["tool"]))
     if model is not None and "error" not in model:
-        m_rel = [s["released"] for s in model["impl"]["srcs"]]
-        i_rel = [s["released"] for s in a["srcs"]]
+        # (synchronous kinds have no release state on the real side: `released` is None there)
+        i_rel = [s["released"] for s in a["srcs"] if s["released"] is not None]
+        m_rel = [m["released"] for m, s in zip(model["impl"]["srcs"], a["srcs"]) if s["released"] is not None]
         if m_rel != i_rel:
             issues.append(Issue("A", {"asyncstdlib": a["srcs"], "model": model["impl"]["srcs"]}))
         if s1._ref_out(a["out"]) != s1._ref_out(model["impl"]["out"]) and a["out"] != model["impl"]["out"]:
